@@ -176,6 +176,15 @@ CHECKS["C19"] = ("SseWire.tla",
     "is enumeration on the implementation.",
     "DESIGN.md 5 C19")
 
+CHECKS["C18"] = ("Url.tla",
+    "TLC model check of URL construction from (scheme, server, Host header, root, path, query) and of replace() on URL records "
+    "(Built, ReplacedExactly); every behaviour replayed on the real URL class: environ and scope construction, wsgi/asgi "
+    "Request.url, replace(), repr(); query helpers checked as set/replace/remove on the multi-value query",
+    "Schemes x named/IPv4/IPv6 hosts x default and other ports x Host header forms x roots x paths (non-ASCII) x queries; every "
+    "URL with a host x every set of 1-2 (thorough 3) components to replace x new values incl. removing user/password/port.",
+    "Trusted: TLC, urllib.parse.urlsplit as the reader of the resulting URL, the token concretisation in the adapter.",
+    "DESIGN.md 5 C18")
+
 NOT_YET = {}
 
 ALL = ["C%02d" % i for i in range(1, 21)]
